@@ -284,9 +284,9 @@ fn read_at(buf: &[u8], pos: usize, depth: usize) -> Result<Item, ReadError> {
             0..=23 => Kind::Simple(ai),
             24 => {
                 let v = arg.unwrap() as u8;
-                if v < 32 {
-                    return Err(ReadError::Malformed("two-byte simple < 32"));
-                }
+                // RFC 8949 calls the two-byte form of a simple value below 32 not well-formed; the
+                // CBOR layer under coset accepts f8 14..f8 17 as false / true / null / undefined,
+                // so the harness reader follows it (the item remembers its two-byte head)
                 Kind::Simple(v)
             }
             25 => Kind::Float(2, arg.unwrap()),
@@ -510,7 +510,7 @@ pub fn write_item(it: &Item, out: &mut Vec<u8>, enc: &mut dyn EncChoice) {
             write_item(inner, out, enc);
         }
         Kind::Simple(v) => {
-            if *v < 24 {
+            if *v < 24 && !((20..=22).contains(v) && enc.width(0) != 0 && enc.indefinite()) {
                 out.push(0xe0 | *v);
             } else {
                 out.push(0xf8);
